@@ -43,7 +43,26 @@ def worker(n):
             mid = q.get_nowait()
         except queue.Empty:
             break
-        sh("git checkout -q -- . && git clean -fdq", wt)
+        sh("git checkout -q -- . && git clean -fdq -e target -e Cargo.lock", wt)
+        if "--validate" in sys.argv:
+            # re-confirm a packaged seeded change at /repo's HEAD: demo passes without it, fails with it, suite passes, builds
+            r = {}
+            sh("cp %s/%s/demo.rs tests/jsvdemo.rs" % (BASE, mid), wt)
+            rc, o = sh("cargo test --offline --all-features --test jsvdemo 2>&1 | tail -5", wt)
+            r["pristine_demo_pass"] = ("test result: ok" in o) and ("0 passed" not in o.split("test result: ok")[-1][:30])
+            rc, o = sh("git apply %s/%s/patch.diff" % (BASE, mid), wt)
+            r["applies"] = rc == 0
+            rc, o = sh("cargo test --offline --all-features --test jsvdemo 2>&1 | tail -8", wt)
+            r["mutant_demo_fails"] = "FAILED" in o or "failed" in o or "panicked" in o
+            sh("rm tests/jsvdemo.rs", wt)
+            rc, o = sh("cargo test --offline --no-fail-fast 2>&1 | grep -E '^test result|FAILED|error' | head -20", wt)
+            r["suite_passes"] = o.count("test result: ok") >= 5 and "FAILED" not in o and "error" not in o
+            rc, o2 = sh("cargo build --offline --all-features 2>&1 | tail -2", wt)
+            r["builds_all_features"] = "Finished" in o2
+            with lock:
+                print(json.dumps([mid, "validate", "CONFIRMED" if all(r.values()) else "NOT-CONFIRMED", r])); sys.stdout.flush()
+            sh("git checkout -q -- . && git clean -fdq -e target -e Cargo.lock", wt)
+            continue
         rc, o = sh("git apply %s/%s/patch.diff" % (BASE, mid), wt)
         if rc != 0:
             with lock:
